@@ -148,6 +148,7 @@ func RunAll(r *report.Run, filter func(name string) bool, key KeyFn, opt Options
 		c := Cases[sel[k]]
 		par.Note("native")
 		n := RunNative(c)
+		n.Out += opt.AfterExpect
 		par.Note("interp")
 		it := RunInterp(c.Src, opt)
 		par.Count("programs", 1)
@@ -170,12 +171,23 @@ func RunAll(r *report.Run, filter func(name string) bool, key KeyFn, opt Options
 	for _, a := range res.Abnormal {
 		failing[Cases[sel[a.Idx]].Name] = true
 	}
-	for _, o := range res.Outs {
-		k := o.Key
-		if Rekey != nil {
-			k = Rekey(o.FC.Name, k, failing)
+	// minimal cases (those that are their own key) first, so that they lead the replay files
+	var idx []int
+	for i := range res.Outs {
+		idx = append(idx, i)
+	}
+	sort.Ints(idx)
+	for pass := 0; pass < 2; pass++ {
+		for _, i := range idx {
+			o := res.Outs[i]
+			k := o.Key
+			if Rekey != nil {
+				k = Rekey(o.FC.Name, k, failing)
+			}
+			if (k == o.FC.Name) == (pass == 0) {
+				r.Fail(report.Failure{Key: k, What: o.What, Case: o.FC})
+			}
 		}
-		r.Fail(report.Failure{Key: k, What: o.What, Case: o.FC})
 	}
 	for _, a := range res.Abnormal {
 		c := Cases[sel[a.Idx]]
